@@ -2335,6 +2335,24 @@ pub fn gen_case(rng: &mut Rng, tier: &str, profile: &str, stats: &mut Stats) -> 
         return ops;
     }
     if profile == "C13" && rng.chance(1, 8) {
+        // directed case: a node with a session cache of two is made to challenge three (or four)
+        // strangers at once; every challenge stays unanswered and expires: no exemption is left
+        stats.bump("gen.cases.directed-more-challenges-than-the-session-cache-holds");
+        ops.push(format!("hworld 3 1 400 {} 86400000", rng.range(1, 2)));
+        let x = rng.range(1, 3);
+        let mut sources: Vec<u64> = (1..=3).filter(|y| *y != x).collect();
+        sources.push(9);
+        for y in sources {
+            ops.push(format!("hcraft random {} {}", y, x));
+            ops.push(format!("hdel last {}", y));
+            ops.push("hdel skip".into());
+            ops.push(format!("hwru {} next {}", x, if rng.chance(1, 2) { "none" } else { "known" }));
+            if rng.chance(1, 3) { ops.push("hadv 50".into()); }
+        }
+        ops.push("hquiet".into());
+        return ops;
+    }
+    if profile == "C13" && rng.chance(1, 8) {
         // directed case: a request to a silent peer is about to time out when that peer's own (undecryptable)
         // packet makes this node challenge it; the request's failure releases the request's exemption,
         // the challenge keeps its own until it is answered or expires
